@@ -34,7 +34,11 @@ pub fn cell_generated(profile: &str, thorough: bool, cell_seed: u64, full: bool)
         return crate::monitors::corrupt_cell(thorough, cell_seed, full);
     }
     if profile == "ysync" {
-        return crate::monitors::ysync_cell_generated(thorough, cell_seed, full);
+        let out = cell::run_cell(cell_seed, limits_for(profile), move || {
+            let r = crate::ysync::run_generated(thorough, cell_seed, full);
+            serde_json::to_vec(&r).unwrap()
+        });
+        return decode_outcome(out, profile);
     }
     let p = profile.to_string();
     let out = cell::run_cell(cell_seed, limits_for(profile), move || {
@@ -48,8 +52,15 @@ pub fn cell_replay(rf: &ReplayFile) -> CellResult {
     if rf.profile == "corrupt" {
         return crate::monitors::corrupt_replay(rf);
     }
-    if rf.profile == "ysync" {
-        return crate::monitors::ysync_cell_replay(rf);
+    if rf.profile == "ysync" && !(rf.trace.is_empty() && rf.note.starts_with("seed-mode")) {
+        let cfg = rf.cfg.clone();
+        let trace = rf.trace.clone();
+        let seed = rf.cell_seed;
+        let out = cell::run_cell(seed, limits_for(&rf.profile), move || {
+            let r = crate::ysync::run_replay(&cfg, seed, &trace);
+            serde_json::to_vec(&r).unwrap()
+        });
+        return decode_outcome(out, &rf.profile);
     }
     if rf.trace.is_empty() && rf.note.starts_with("seed-mode") {
         return cell_generated(&rf.profile, rf.tier == "thorough", rf.cell_seed, true);
@@ -124,6 +135,11 @@ pub fn main(args: &[String]) -> i32 {
     if !crate::arena::map() {
         eprintln!("ysim: cannot map the fixed-address arena");
         return EXIT_HARNESS;
+    }
+    // warm process-wide lazies before any cell is forked (dashmap's shard count asks the OS for the
+    // available parallelism, which costs milliseconds per fresh process)
+    {
+        let _aw = yrs::sync::Awareness::with_clock(yrs::Doc::with_client_id(1), || 0u64);
     }
     match args.get(1).map(|s| s.as_str()) {
         Some("batch") => batch(args),
@@ -228,7 +244,7 @@ pub struct BatchSpec {
 
 fn default_cells(profile: &str, thorough: bool) -> u64 {
     let base = match profile {
-        "corrupt" => 60_000,
+        "corrupt" => 6_000,
         _ => 120_000,
     };
     if thorough {
@@ -434,8 +450,8 @@ pub fn run_batch(spec: &BatchSpec) -> i32 {
         "seed": spec.seed,
         "level": level,
         "coverage": {
-            "evaluations": total.cells,
-            "distinct_nontrivial": sigs.len(),
+            "evaluations": if spec.profile == "corrupt" { total.stats.get("oracle_evals").copied().unwrap_or(0) } else { total.cells },
+            "distinct_nontrivial": if spec.profile == "corrupt" { total.stats.get("closed_checks").copied().unwrap_or(0) as usize } else { sigs.len() },
             "rule": crate::monitors::coverage_rule(&spec.profile),
             "samples": samples,
             "nontrivial_runs": total.nontrivial,
